@@ -3,6 +3,8 @@ CONSTANTS MaxSteps = 2
           FreeSteps = 1
           Scope = "thorough"
           Caller = FALSE
+          Edits = FALSE
+          Pairs = "no"
           Extend = FALSE
 INIT Init
 NEXT NextGen
